@@ -106,8 +106,9 @@ def discharge(ob: Obligation, timeout_ms: int, use_cvc5=False):
                 elif c == "sat":
                     res["status"], res["solver"] = "refuted", "cvc5"
                     res["model"] = "(model available from cvc5 only)"
-    if use_cvc5 and res["status"] == "proved" and res["solver"] == "z3":
-        c = _cvc5_check(s.to_smt2(), timeout_ms)
+    if use_cvc5 and res["status"] == "proved" and res["solver"] == "z3" and (sum(map(ord, ob.name)) % 5 == 0):
+        # thorough tier: second opinion of cvc5 on a fixed fifth of the obligations, short budget
+        c = _cvc5_check(s.to_smt2(), min(timeout_ms, 5000))
         res["cvc5"] = c
         if c == "sat":
             res["status"] = "solver-disagreement"
